@@ -14,6 +14,7 @@ open OutViews
 open Plain
 open Pragma
 open SiteCheck
+open SlotFlagCheck
 open State
 open Str
 open String
